@@ -1,0 +1,5 @@
+//go:build !verif
+
+package mtproto
+
+func verifYield(string, interface{}) {}
